@@ -477,4 +477,72 @@ example : ((Inverter.new 1 [7] [1]).inv 1 [3]).gZero = true ∧
 example : (gcdFixed false 1 [21] [14]).gZero = true ∧ (gcdFixed false 1 [21] [14]).value = [7] := by
   decide +kernel
 
+/-! ## coverage round — the safegcd building blocks the correspondence run reaches through
+     `crypto_bigint::verif_hooks` (`c10.hook.*`).  `inv_mod2_62_correct`, `jump_matrix`, `jump_preserves_gcd`,
+     `fg_exact`, `de_exact`, `unsat_arith`, `from_uint_value`, `to_uint_value` above are statements about exactly
+     the functions the hook ops call; the remaining ones follow. -/
+
+/-- `iterations(f_bits, g_bits)` with the constants regenerated from the source (`CB.Extracted`) is the bound of
+    Bernstein–Yang Figure 11.1 on `d = max(f_bits, g_bits)`: `⌊(49 d + 80)/17⌋` below 46 bits, `⌊(49 d + 57)/17⌋`
+    from 46 bits on. -/
+theorem iterations_formula (f g : Nat) :
+    iterations f g = (49 * max f g + (if max f g < 46 then 80 else 57)) / 17 := by
+  have hm : (if f < g then g else f) = max f g := by
+    rw [Nat.max_def]; split <;> split <;> omega
+  unfold iterations
+  simp only [hm]
+  rfl
+
+/-- `UnsatInt::eq` and `UnsatInt::is_negative` decide equality and the sign of the two's-complement value. -/
+theorem unsat_eq_is_negative (a b : List Nat) (ha : WF62 a) (hb : WF62 b) (hl : a.length = b.length)
+    (hne : a ≠ []) :
+    (SafeGcd.ueq a b = true ↔ uval a = uval b) ∧ (uisNeg a = true ↔ uval a < 0) := by
+  refine ⟨ueq_uval a b ha hb hl hne, ?_⟩
+  have hlt : ((uvalN a : Nat) : Int) < ((Q ^ a.length : Nat) : Int) := by exact_mod_cast uvalN_lt ha
+  have h0 : (0 : Int) ≤ ((uvalN a : Nat) : Int) := Int.natCast_nonneg _
+  rw [uval_eq]
+  cases h : uisNeg a
+  · simp only [Bool.false_eq_true, if_false, false_iff]; omega
+  · simp only [if_true, true_iff]; omega
+
+/-- `SafeGcdInverter::norm` / `BoxedSafeGcdInverter::norm` (`c10.hook.norm`, `c10.hook.bnorm`): for every limb
+    count, every `value ∈ (−2M, M)` and both values of `negate`, the result is the representative of `±value` in
+    `[0, M)`. -/
+theorem inverter_norm_exact (m v : List Nat) (negate : Bool) (hm : WF62 m) (hv : WF62 v) (hl : v.length = m.length)
+    (hne : v ≠ []) (hM : 0 < uval m) (h1 : -(2 * uval m) < uval v) (h2 : uval v < uval m)
+    (hcap : 4 * uval m ≤ ((Q ^ v.length : Nat) : Int)) :
+    (norm m v negate).length = v.length ∧ WF62 (norm m v negate) ∧
+    uval (norm m v negate) = (if negate then -uval v else uval v) % uval m := by
+  obtain ⟨l, w, p0, p1, c⟩ := norm_spec m v negate hm hv hl hne hM h1 h2 hcap
+  refine ⟨l, w, ?_⟩
+  have := Int.emod_emod_of_dvd (uval (norm m v negate)) (dvd_refl (uval m))
+  rw [← Int.emod_eq_of_lt p0 p1]
+  exact c
+
+/-- the boxed `leading_zeros` AS WRITTEN (it walks up from the least significant limb and stops after the first
+    ZERO limb): whenever the lowest limb is zero the answer is 62, whatever the value — e.g. `2^62·x` in any
+    number of limbs. `bits()` is then `62·n − 62`. (Documented as an observation in notes/C10.md: the function
+    only feeds `iterations`, whose 62-fold margin hides it.) -/
+theorem boxed_leading_zeros_low_limb_zero (l : List Nat) : ulzBoxed (0 :: l) = 62 := by
+  have hf : ∀ (l : List Nat) (c : Nat), ulzGoBoxed l false c = c := by
+    intro l
+    induction l with
+    | nil => intro c; rfl
+    | cons x xs ih => intro c; show ulzGoBoxed xs (false && x != 0) (c + 0) = c; simpa using ih c
+  show ulzGoBoxed l (true && (0 : Nat) != 0) (0 + (lz64 0 - 2)) = 62
+  have : (true && (0 : Nat) != 0) = false := by decide
+  rw [this, hf]
+  decide
+
+/-- witnesses: the value 1 in three limbs has 185 leading zeros, the boxed routine says 123; limbs `[1, 1, 1]`
+    (a 125-bit value, 61 leading zeros): the boxed routine says 183, i.e. `bits() = 3`. -/
+example : ulz [1, 0, 0] = 185 ∧ ulzBoxed [1, 0, 0] = 123 ∧ ulz [1, 1, 1] = 61 ∧ ulzBoxed [1, 1, 1] = 183 ∧
+    ubitsBoxed [1, 1, 1] = 3 := by decide
+
+/-- non-vacuity of `inverter_norm_exact` / `unsat_eq_is_negative`: M = 7 in three limbs, value −9 ∈ (−14, 7):
+    `norm` gives 5, and 2 with `negate`. -/
+example : uval (uneg [9, 0, 0]) = -9 ∧ uisNeg (uneg [9, 0, 0]) = true ∧
+    norm [7, 0, 0] (uneg [9, 0, 0]) false = [5, 0, 0] ∧ norm [7, 0, 0] (uneg [9, 0, 0]) true = [2, 0, 0] := by
+  decide +kernel
+
 end CB.P10
